@@ -73,5 +73,5 @@ def rebuild_inlined(world, failing_helpers):
     bad = {h["unit"].split("[")[0] for h in failing_helpers}
     units = build(world)
     for u in units:
-        u.no_contract_for = tuple(bad)
+        u.no_contract_for = tuple(set(u.no_contract_for) | bad)
     return units
